@@ -87,8 +87,13 @@ impl<T: Bounded> BVH<T> {
 
         let mut id: NodeId = 0;
         let ll = elements.len();
-        if ll > max_num_elements {
-            let (left, right) = BVH::partition_elements_by_centroid(elements);
+        let (left, right) = if ll > max_num_elements {
+            BVH::partition_elements_by_centroid(elements)
+        } else {
+            (elements, Vec::new())
+        };
+        // Si la partición deja un lado vacío (p.e. centroides coincidentes) no se puede dividir
+        if !left.is_empty() && !right.is_empty() {
             // Guardamos nodo inicial (da igual el lado)
             node_list.push(TreeElement(0, Node, L, None, None));
             // Nodos pendientes
@@ -101,15 +106,22 @@ impl<T: Bounded> BVH<T> {
                     pending.pop().unwrap();
                 let c_elems = c_maybe_elems.unwrap();
                 let cll = c_elems.len();
-                if cll > max_num_elements {
+                let (left, right) = if cll > max_num_elements {
+                    BVH::partition_elements_by_centroid(c_elems)
+                } else {
+                    (c_elems, Vec::new())
+                };
+                // Si la partición deja un lado vacío (p.e. centroides coincidentes) no se puede dividir
+                if !left.is_empty() && !right.is_empty() {
                     // Completamos un nodo intermedio y dejamos pendientes sus ramas
-                    let (left, right) = BVH::partition_elements_by_centroid(c_elems);
                     node_list.push(TreeElement(c_id, Node, c_side, c_maybe_parent_id, None));
                     pending.push(TreeElement(id + 2, Node, R, Some(c_id), Some(right)));
                     pending.push(TreeElement(id + 1, Node, L, Some(c_id), Some(left)));
                     id += 2;
                 } else {
                     // Completamos un nodo terminal
+                    let mut c_elems = left;
+                    c_elems.extend(right);
                     node_list.push(TreeElement(
                         c_id,
                         Leaf,
@@ -120,6 +132,8 @@ impl<T: Bounded> BVH<T> {
                 }
             }
         } else {
+            let mut elements = left;
+            elements.extend(right);
             node_list.push(TreeElement(0, Leaf, L, None, Some(elements)));
         }
         node_list
